@@ -13,7 +13,8 @@ use tower_resilience_circuitbreaker::{CircuitBreakerLayer, CircuitState, Sliding
 use tower_resilience_timelimiter::TimeLimiterLayer;
 
 type MkFn = Box<dyn FnMut(&Req) -> CallFut>;
-type OpFn = Box<dyn FnMut(&str)>;
+/// performs a named operation on some layer; returns the layer whose trace shows it and the fields of the event
+type OpFn = Box<dyn FnMut(&str) -> (usize, Obj)>;
 pub struct InsituAd {
     stack: String,
     layer: usize,
@@ -54,7 +55,10 @@ where
         let mut s = svc.clone();
         let w = futures::task::noop_waker();
         let mut cx = std::task::Context::from_waker(&w);
-        let _ = s.poll_ready(&mut cx);
+        // a caller that does not find the stack ready does not call (Tower contract)
+        if !matches!(s.poll_ready(&mut cx), std::task::Poll::Ready(Ok(()))) {
+            return Box::pin(async move { Out::Err { kind: "notready".into(), val: -1 } });
+        }
         let f = s.call(req.clone());
         Box::pin(async move {
             match f.await {
@@ -85,6 +89,73 @@ impl InsituAd {
             }
         }));
         self.hub = Some(hub);
+    }
+    fn build_s3(&mut self, cfg: &Value, sim: &mut Sim) {
+        use tower_resilience_adaptive::{AdaptiveLimiterLayer, Aimd, Algorithm, Vegas};
+        use tower_resilience_coalesce::CoalesceLayer;
+        use tower_resilience_ratelimiter::{RateLimiterLayer, WindowType};
+        let (ad, rl, co) = (&cfg["ad"], &cfg["rl"], &cfg["co"]);
+        let hub = Hub::new(&[("adaptive", ad.clone()), ("ratelimiter", rl.clone()), ("coalesce", co.clone())], sim.seed, sim.run, cfg["size"].as_str().unwrap_or("quick"), cfg);
+        hub.lock().unwrap().t0 = sim.t0;
+        let p3 = Probe::new(Inner::new(&sim.w), &hub, 3);
+        fn keyfn(r: &Req) -> CKey {
+            CKey(r.key)
+        }
+        let col: CoalesceLayer<CKey, Req, fn(&Req) -> CKey> = CoalesceLayer::new(keyfn as fn(&Req) -> CKey);
+        let p2 = Probe::new(col.layer(p3), &hub, 2);
+        let wt = match rl["win"].as_str().unwrap() {
+            "fixed" => WindowType::Fixed,
+            "log" => WindowType::SlidingLog,
+            _ => WindowType::SlidingCounter,
+        };
+        let rll = RateLimiterLayer::builder()
+            .limit_for_period(rl["L"].as_u64().unwrap() as usize)
+            .refresh_period(Duration::from_millis(rl["P"].as_u64().unwrap()))
+            .timeout_duration(Duration::from_millis(rl["T"].as_u64().unwrap()))
+            .window_type(wt)
+            .build();
+        let p1 = Probe::new(rll.layer(p2), &hub, 1);
+        let u = |k: &str| ad[k].as_u64().unwrap_or(1) as usize;
+        let alg = if ad["kind"] == "vegas" {
+            Algorithm::Vegas(Vegas::builder().initial_limit(u("initial")).min_limit(u("min")).max_limit(u("max")).build())
+        } else {
+            Algorithm::Aimd(Aimd::builder().initial_limit(u("initial")).min_limit(u("min")).max_limit(u("max")).increase_by(u("inc").max(1))
+                .decrease_factor(ad["fnum"].as_u64().unwrap_or(2) as f64 / 4.0).latency_threshold(Duration::from_millis(3)).build())
+        };
+        let svc = AdaptiveLimiterLayer::new(alg).layer(p1);
+        let view = svc.clone();
+        hub.lock().unwrap().layers[1].obs = Some(Box::new(move || {
+            let mut m = Obj::new();
+            m.insert("inf".into(), json!(view.in_flight()));
+            m.insert("inf2".into(), json!(0));
+            m.insert("limit".into(), json!(view.limit()));
+            m
+        }));
+        let p0 = Probe::new(svc, &hub, 0);
+        let prober = p0.clone();
+        self.opf = Some(Box::new(move |name: &str| {
+            let mut m = Obj::new();
+            if name == "probe" {
+                // a readiness probe on a fresh clone of the whole stack
+                let mut s = prober.clone();
+                let w = futures::task::noop_waker();
+                let mut cx = std::task::Context::from_waker(&w);
+                let r = match s.poll_ready(&mut cx) {
+                    std::task::Poll::Ready(Ok(())) => "ready",
+                    std::task::Poll::Ready(Err(_)) => "err",
+                    std::task::Poll::Pending => "pending",
+                };
+                m.insert("res".into(), json!(r));
+                m.insert("svc".into(), json!(1));
+                (1, m)
+            } else {
+                // "end": the rate limiter's end-of-run check
+                m.insert("res".into(), json!("none"));
+                (2, m)
+            }
+        }));
+        self.mkf = Some(top(p0));
+        self.finish_build(hub, sim);
     }
     fn build_s2(&mut self, cfg: &Value, sim: &mut Sim) {
         use futures::future::BoxFuture;
@@ -179,6 +250,16 @@ impl Adapter for InsituAd {
     fn gen_cfg(&mut self, rng: &mut Rng, size: Size) -> Value {
         let sz = if size == Size::Quick { "quick" } else { "thorough" };
         match self.stack.as_str() {
+            // S3: adaptive limiter over rate limiter (three window types, waiting callers) over coalescer
+            "S3" => {
+                let min = 1 + rng.below(2);
+                let max = min + rng.below(4);
+                let p = *rng.pick(&[3u64, 4, 5, 8]);
+                json!({"stack": "S3", "size": sz,
+                    "ad": {"kind": *rng.pick(&["aimd", "vegas"]), "min": min, "max": max, "initial": rng.below(max + 2), "inc": 1 + rng.below(2), "fnum": *rng.pick(&[0u64, 2, 3, 4]), "two": 0},
+                    "rl": {"win": *rng.pick(&["fixed", "log", "counter"]), "L": 1 + rng.below(3), "P": p, "T": *rng.pick(&[0u64, 1, 2, p - 1, p, p + 1, 2 * p]), "slow": 1, "lazy": 0},
+                    "co": {"x": 0}})
+            }
             // S2: time limiter (cancelling) over fallback over retry (fixed / exponential backoff, optional token bucket)
             "S2" => {
                 let bo = *rng.pick(&["fixed", "exp"]);
@@ -205,6 +286,9 @@ impl Adapter for InsituAd {
     fn build(&mut self, cfg: &Value, sim: &mut Sim) {
         if cfg["stack"] == "S2" {
             return self.build_s2(cfg, sim);
+        }
+        if cfg["stack"] == "S3" {
+            return self.build_s3(cfg, sim);
         }
         let (tl, cb, bh) = (&cfg["tl"], &cfg["cb"], &cfg["bh"]);
         let hub = Hub::new(&[("timelimiter", tl.clone()), ("circuitbreaker", cb.clone()), ("bulkhead", bh.clone())], sim.seed, sim.run, cfg["size"].as_str().unwrap_or("quick"), cfg);
@@ -254,13 +338,17 @@ impl Adapter for InsituAd {
                     o
                 }));
                 let ctl = cbsvc.clone();
-                self.opf = Some(Box::new(move |name: &str| match name {
-                    "force_open" => now(ctl.force_open()),
-                    "force_closed" => now(ctl.force_closed()),
-                    "reset" => now(ctl.reset()),
-                    _ => {}
+                self.opf = Some(Box::new(move |name: &str| {
+                    match name {
+                        "force_open" => now(ctl.force_open()),
+                        "force_closed" => now(ctl.force_closed()),
+                        "reset" => now(ctl.reset()),
+                        _ => {}
+                    }
+                    let mut m = Obj::new();
+                    m.insert("res".into(), json!("none"));
+                    (2, m)
                 }));
-                self.oplayer = 2;
                 let p1 = Probe::new(cbsvc, &hub, 1);
                 let p0 = Probe::new(tll.layer(p1), &hub, 0);
                 self.mkf = Some(top(p0));
@@ -279,15 +367,31 @@ impl Adapter for InsituAd {
     }
     fn op(&mut self, name: &str, _ev: &Value, _sim: &mut Sim) -> (Value, Obj) {
         if let Some(f) = self.opf.as_mut() {
-            f(name);
+            let (layer, extra) = f(name);
             let mut m = Sim::ev("op");
             m.insert("name".into(), json!(name));
-            m.insert("res".into(), json!("none"));
-            self.hub.as_ref().unwrap().lock().unwrap().emit(self.oplayer, m, true);
+            for (k, v) in extra {
+                m.insert(k, v);
+            }
+            self.hub.as_ref().unwrap().lock().unwrap().emit(layer, m, true);
         }
         (Value::Null, Obj::new())
     }
     fn params(&self, cfg: &Value, size: Size, rng: &mut Rng) -> DriveParams {
+        if cfg["stack"] == "S3" {
+            let mut p = DriveParams::default();
+            p.n = if size == Size::Quick { 6 + rng.below(5) } else { 8 + rng.below(8) };
+            p.keys = 1 + rng.below(3) as u32;
+            p.steps = if size == Size::Quick { 90 } else { 200 };
+            p.horizon = 6 * cfg["rl"]["P"].as_u64().unwrap();
+            p.outs = vec![(GOut::Ok, 5), (GOut::Err(1), 3), (GOut::Panic, 1)];
+            p.w_drop = 2;
+            p.w_create = 5;
+            p.w_op = 2;
+            p.ops = vec!["probe"];
+            p.max_adv = 3;
+            return p;
+        }
         if cfg["stack"] == "S2" {
             let mut p = DriveParams::default();
             p.n = if size == Size::Quick { 3 + rng.below(3) } else { 3 + rng.below(4) };
@@ -311,7 +415,12 @@ impl Adapter for InsituAd {
         p.max_adv = 3;
         p
     }
-    fn finale(&self, _cfg: &Value) -> Vec<Value> {
+    fn finale(&self, cfg: &Value) -> Vec<Value> {
+        if cfg["stack"] == "S3" {
+            // the rate limiter's end-of-run check: nobody undecided beyond its timeout
+            let t = cfg["rl"]["T"].as_u64().unwrap();
+            return vec![json!({"e":"settle"}), json!({"e":"advance","d": t + 1}), json!({"e":"settle"}), json!({"e":"op","name":"end"}), json!({"e":"dropall"})];
+        }
         vec![json!({"e":"settle"}), json!({"e":"dropall"})]
     }
     fn take_lines(&mut self) -> Option<Vec<String>> {
